@@ -287,3 +287,28 @@ Proof.
   apply dr_nil.
 Qed.
 Print Assumptions C11_converges_today_partial_nonvacuous.
+
+(* ------------------------------------------------------------------ the answer of Range is a value *)
+(* Op sequence [Range; Push*; observe]: whatever is pushed after the call, the answer the caller holds is still
+   exactly the entries that were retained, in range, AT THE TIME OF THE CALL.  In Gallina this is immediate (a list
+   is a value); it is stated because it is the contract the model assumes of the Go code — "the result does not
+   alias the ring" — and the harness tests exactly that: every Range answer is read again after each of cap+1
+   further pushes, and BulkSync is run while the active node pushes between two pages (op OBulkChurn). *)
+Theorem C11_range_answer_survives_pushes :
+  forall cap qs first from to later,
+  (0 < cap <= max_make)%Z -> consec first qs -> (0 <= first)%Z -> (first + Z.of_nat (length qs) <= two64)%Z ->
+  (0 <= from < two64)%Z -> (0 <= to < two64)%Z ->
+  fst (range_then_push repaired (fold_left push qs (new_ring cap)) from to later) =
+  Ok (map Some (filter (in_range from to) (skipn (length qs - Z.to_nat cap) qs))).
+Proof.
+  intros cap qs first from to later Hc Hcs Hf Hm Hfr Hto. unfold range_then_push. cbn [fst].
+  exact (backlog_range_repaired cap qs first from to Hc Hcs Hf Hm Hfr Hto).
+Qed.
+Print Assumptions C11_range_answer_survives_pushes.
+
+(* a delivery whose store write fails leaves the repaired standby untouched (in particular its last sequence
+   number), so the retransmission that follows is applied; together with C11_converges: failed attempts anywhere
+   in an admissible delivery do not change the outcome *)
+Theorem C11_failed_delivery_harmless : forall rc q, recv_fail repaired rc q = rc.
+Proof. reflexivity. Qed.
+Print Assumptions C11_failed_delivery_harmless.
